@@ -19,6 +19,13 @@ tie    : (T) translate/t_eig.py regenerates coq/gen/EigSelect.v from the current
 search : the same end-to-end decision procedures at the thorough budget on structured inputs
          (collinear, simplex, rank-deficient, large offset, duplicates) + small exhaustive integer
          tables for the matrix stage.
+wave 3 : calling context and configuration: (PAR) batches of dense end-to-end cases re-run from inside the harness's
+         own `#pragma omp parallel for num_threads(4)` region, one data set per thread, max-active-levels 1/2,
+         OMP_THREAD_LIMIT unset/2: solver input and embedding bit-for-bit the serial ones, else model comparison /
+         extracted factor specification (Mds_Model_Par.v + Mds_Proof_Par.v: the worksharing loop fills the whole
+         matrix for every team size and every content of the uninitialised allocation; the orphaned variant does not);
+         (kw) keywords left at their defaults, OMP_THREAD_LIMIT below OMP_NUM_THREADS; (huge) finite magnitudes whose
+         squares overflow: exception or matrix, never an abort.
 wave 2 : (a) SCALED COPIES of every end-to-end case (table * 2^e, e in {-40,-30,-20,20,40}): factor_spec with tolerances
              relative to |B| and the exact relation Y(2^e D) = 2^e Y(D) (Mds_scale_equivariance); exact stream on dyadic
              tiny / huge scales;
@@ -87,6 +94,11 @@ TRUSTED = [
     "(harness built -O0 -g0 and without the UBSan sub-checks null, alignment, vptr, object-size to keep the cold "
     "build inside the quick budget)",
     "C04's Dijkstra_Spec.v definitions (edge, pathn, is_sp, metric_w) are reused for isomap_k_full",
+    "wave 3: Mds_Model_Par.v models the worksharing loop of compute_distance_matrix over an ARBITRARY initial content of "
+    "the allocation and a parametric schedule (hand-written; what OpenMP's `parallel` / orphaned `for` bind to is the "
+    "modelling assumption: own team of T >= 1 threads vs. the caller's team); tied to the C++ by the PAR stream "
+    "(libgomp, 4 requested threads, nested levels 1/2, OMP_THREAD_LIMIT): bit-for-bit against the serial call, else "
+    "against the extracted model of the matrix",
 ]
 
 
@@ -1247,6 +1259,10 @@ def plan_variants(chunk, counter, quick):
         if c["d"] == 2:
             out.append({"stream": "kw", "variant": "target_dimension_unset", "datasets": [c], "n": c["n"],
                         "gen": "keyword_default/target_dimension_unset"})
+        if j % 3 == 0:
+            out.append({"stream": "kw", "variant": "omp_thread_limit_below_num_threads", "datasets": [c], "n": c["n"],
+                        "env": {"OMP_NUM_THREADS": "4", "OMP_THREAD_LIMIT": "2" if j % 2 else "1"},
+                        "gen": "omp_env/thread_limit_below_num_threads"})
     return out
 
 
@@ -1260,6 +1276,9 @@ def context_text(b, r=None):
                 "thread (omp_set_max_active_levels(%d), OMP_THREAD_LIMIT %s, OMP_NUM_THREADS 2%s)" % (
                     b["threads"], b["levels"], b["thread_limit"] or "unset",
                     ", observed team: %s" % r.P["team"].split()[0] if r is not None and "team" in r.P else ""))
+    if b["variant"] == "omp_thread_limit_below_num_threads":
+        return "called from plain serial code with %s in the environment" % " ".join(
+            "%s=%s" % kv for kv in sorted((b.get("env") or {}).items()))
     if b["variant"] == "eigen_method_unset":
         return "called with the eigen_method keyword left unset (library default) instead of eigen_method = Dense"
     return "called with the target_dimension keyword left unset (documented default 2) instead of target_dimension = 2"
@@ -1273,8 +1292,11 @@ def eval_variants_inner(ctx, exe, mexe, tab, batches, stats):
     results = [None] * len(batches)
     groups = {}
     for bi, b in enumerate(batches):
-        groups.setdefault(b.get("thread_limit", 0) if b["stream"] == "par" else -1, []).append(bi)
-    for lim, idxs in sorted(groups.items()):
+        env = dict(b.get("env") or {})
+        if b["stream"] == "par" and b.get("thread_limit"):
+            env["OMP_THREAD_LIMIT"] = str(b["thread_limit"])
+        groups.setdefault(tuple(sorted(env.items())), []).append(bi)
+    for envkey, idxs in sorted(groups.items()):
         lines = []
         for bi in idxs:
             b = batches[bi]
@@ -1286,7 +1308,7 @@ def eval_variants_inner(ctx, exe, mexe, tab, batches, stats):
                 lines.append("EMB %s %s %d %d %d %d %s" % (
                     d["meth"], "default" if b["variant"] == "eigen_method_unset" else "dense", d["seed"], d["n"],
                     -1 if b["variant"] == "target_dimension_unset" else d["d"], d["k"], tab_tokens(d["table"])))
-        impl = run_impl(ctx, exe, lines, env={"OMP_THREAD_LIMIT": str(lim)} if lim > 0 else None)
+        impl = run_impl(ctx, exe, lines, env=dict(envkey) or None)
         for bi, r in zip(idxs, impl):
             results[bi] = r
     pending = []            # (bi, di, kind, payload)
@@ -1780,7 +1802,19 @@ def run(ctx):
              "cases.  non-trivial = end-to-end with N >= 3, matrix stage with N >= 4, a triangle probe or a step tie; "
              "distinct by hash of (stream, method, solver, N, d, k, table).  Every end-to-end output goes through the "
              "extracted factor_spec decision procedure with per-column relative tolerances (relative to |B|, never looser "
-             "than 4e-8 / 4e-6 of the top eigenvalue); every scaled copy is also compared with 2^e times its base.",
+             "than 4e-8 / 4e-6 of the top eigenvalue); every scaled copy is also compared with 2^e times its base.  "
+             "WAVE 3: every dense end-to-end case that met the specification is repeated (a) in a batch of up to 8 data sets "
+             "from INSIDE the harness's own `#pragma omp parallel for num_threads(4) schedule(static,1)` region (one data "
+             "set per thread; omp_set_max_active_levels 1 / 2 and OMP_THREAD_LIMIT unset / 2 cycle over the batches): the "
+             "matrix handed to the solver and the public-API embedding must be bit-for-bit those of the plain serial call, "
+             "anything that is not goes through the model comparison / the extracted factor specification; (b) with the "
+             "eigen_method keyword left unset, with target_dimension left unset when it is 2, and (every third case) from "
+             "serial code under OMP_NUM_THREADS=4 with OMP_THREAD_LIMIT=1 or 2: same judgement; + a stream of finite inputs "
+             "of HUGE magnitude (distances times 2^498..2^1000, kernels times 2^990..2^1016; MDS, Kernel PCA, Isomap; dense, "
+             "randomized, default solver): the outcome must be an exception or a matrix, never an abort, and where every "
+             "intermediate stays finite the factor specification is applied; + exact-stream linear kernels with a common "
+             "offset of 2^20 / 10^6 against a spread of 8; lattices scaled by non-powers-of-two and permuted; linear "
+             "kernels with more features than samples.",
         samples=samples,
         histogram={"generators": hist, "sizes": sizes, "stats": stats},
         trusted_base=TRUSTED,
@@ -1789,7 +1823,11 @@ def run(ctx):
                      "1 <= target_dimension < N; randomized solver only on inputs of rank <= target_dimension and only on "
                      "scales where no replayed Gram-Schmidt norm falls under its absolute cut-off 1e-4 (known finding F36: "
                      "below that scale the original throws)",
-                     "finite inputs (no NaN/inf)",
+                     "finite inputs (no NaN/inf); beyond ~1e154 (squares overflow) only 'exception or matrix, no abort' "
+                     "is claimed",
+                     "calling context: any thread of an application's OpenMP parallel region may call tapkee::embed on its "
+                     "own data set (dense solver; the randomized solver draws from the process-wide std::rand and is not "
+                     "reproducible under concurrency, so it is exercised from serial code only)",
                      "solver and sqrt oracle contracts of DESIGN 1.3 (validated on every replicated call)"],
         extra={"translator_table_sites": None if tab is None else len(tab["branches"]),
                "model_cache_hits": STATS_CACHE["hits"]})
